@@ -321,3 +321,30 @@ def parse_mission(data, game):
         e['text'] = lines
         entries.append(e)
     return {'offsets': offsets, 'entries': entries}
+
+
+# ------------------------------------------------------------------------------------------ modern ECL (th10+)
+
+def parse_ecl10(data, game=None):
+    r = R(data)
+    if r.take(4) != b'SCPT': raise LayoutError('bad SCPT magic')
+    r.i16(); inc_len = r.u16(); inc_off = r.u32(); r.u32(); nsubs = r.u32(); r.take(16)
+    r = R(data, inc_off + inc_len)
+    offs = [r.u32() for _ in range(nsubs)]
+    names = []
+    for _ in range(nsubs):
+        s = cstring(data, r.p); names.append(s); r.p += len(s) + 1
+    subs = []
+    for i, off in enumerate(offs):
+        end = offs[i + 1] if i + 1 < nsubs else len(data)
+        sr = R(data, off)
+        if sr.take(4) != b'ECLH': raise LayoutError('bad ECLH magic')
+        sr.take(12)
+        ins = []
+        while sr.p < end:
+            o = sr.p - off - 16
+            time = sr.i32(); op = sr.u16(); size = sr.u16(); mask = sr.u16(); diff = sr.u8(); argc = sr.u8(); pop = sr.u8(); sr.take(3)
+            if size < 16: raise LayoutError('bad ecl10 instr size')
+            ins.append(Instr(offset=o, time=time, opcode=op, size=size, mask=mask, diff=diff, extra={'argc': argc, 'pop': pop}, blob=sr.take(size - 16)))
+        subs.append({'name': names[i], 'offset': off, 'instrs': ins})
+    return {'subs': subs}
